@@ -121,10 +121,11 @@ SRead(e) ==
      /\ UNCHANGED sent
 
 SDone(e) ==
-  /\ e.settle = "ok"
-  /\ Quiescent
+  /\ \/ e.settle = "ok" /\ Quiescent /\ e.al = e.de
+     \* the driver's fair rounds made no progress: only the named deviation is acceptable
+     \/ e.settle = "stuck" /\ SenderUnawareOfDelivery
   /\ \A j \in 1 .. Len(e.ts) : ProjOK(e.ts[j].t, e.ts[j])
-  /\ CountersOK(e) /\ e.al = e.de
+  /\ CountersOK(e)
   /\ e.nsent = Cardinality(sent) /\ e.ndlv = e.nsent
   /\ \A c \in Conns : Len(dlv[c]) = Cardinality({m \in sent : m.src = c[1] /\ m.dst = c[2]})
   /\ UNCHANGED <<vars, sent>>
@@ -178,6 +179,22 @@ LpAfter(t, e) ==
                        [c |-> cs.c, g |-> cs.g, oP |-> cs.oP, oN |-> cs.oN, iP |-> cs.iP, iN |-> cs.iN, kP |-> cs.kP]
                   ELSE lp[x]]
 
+\* SenderUnawareOfDelivery on logged projections (restart traces): every pair of connection
+\* ends is of the same generation, its receiver has and has acknowledged everything the
+\* sender sliced, nothing is queued, no memory is held; some sender window is still open
+LoggedEnds(ts) == {<<j, k>> \in (1 .. Len(ts)) \X (1 .. 16) : k <= Len(ts[j].cs)}
+LoggedSenderUnaware(ts) ==
+  /\ \A j \in 1 .. Len(ts) : ts[j].mem = 0
+  /\ \A x \in LoggedEnds(ts) :
+        LET t == ts[x[1]].t  o == ts[x[1]].cs[x[2]] IN
+        (t < o.p /\ o.oN > 0) =>
+           /\ o.q = 0
+           /\ \E y \in LoggedEnds(ts) :
+                 LET i == ts[y[1]].cs[y[2]] IN
+                 /\ ts[y[1]].t = o.p /\ i.p = t /\ i.g = o.g
+                 /\ i.iP = o.oN /\ i.iN = o.oN /\ i.kP = o.oN /\ i.kS = <<>> /\ i.rq = 0
+  /\ \E x \in LoggedEnds(ts) : LET o == ts[x[1]].cs[x[2]] IN ts[x[1]].t < o.p /\ o.oP < o.oN
+
 Loose(e) ==
   /\ mode = "loose" /\ UNCHANGED <<vars, mode>>
   /\ \/ /\ e.op \in {"n", "w", "r", "e", "d", "l", "t", "x"}
@@ -193,7 +210,8 @@ Loose(e) ==
                 /\ dset' = dset \cup new
            ELSE UNCHANGED dset
      \/ /\ e.op = "settle" /\ UNCHANGED <<sent, dset, lp>>
-     \/ /\ e.op = "done" /\ e.settle = "ok"
+     \/ /\ e.op = "done"
+        /\ e.settle = "ok" \/ (e.settle = "stuck" /\ LoggedSenderUnaware(e.ts))
         /\ \A j \in 1 .. Len(e.ts) : LooseMem(e.ts[j]) /\ e.ts[j].wq = <<>>
         /\ e.ndlv = Cardinality(dset) /\ e.ndlv <= e.nsent /\ e.de <= e.al
         /\ UNCHANGED <<sent, dset, lp>>
